@@ -21,6 +21,8 @@ ALLOWED_AXIOMS = {
     "ClassicalDedekindReals.sig_forall_dec",
     "ClassicalDedekindReals.sig_not_dec",
     "FunctionalExtensionality.functional_extensionality_dep",
+    # excluded middle: reached through Coq.Reals' exp / ln / Rpower (C16_whitened_eig_is_real_power only)
+    "Classical_Prop.classic",
 }
 PRIM_OK = re.compile(r"^(PrimFloat|Uint63|PrimInt63|FloatOps|FloatAxioms|Sint63|SpecFloat|PrimString)\.|^(float|int)\s*:")
 FORBIDDEN = re.compile(
